@@ -1,4 +1,5 @@
 import BtcwVerif.Model.Recovery
+import BtcwVerif.Lemmas.RecoveryComplete
 -- engine: walletchain-recovery
 import Driver.Proto
 open Proto Recovery
@@ -12,6 +13,7 @@ structure St where
   done    : Nat := 0                                -- number of blocks already scanned by the wallet
   rs      : Option State := none                    -- wallet-side recovery/persistent state
   batch   : Nat := 2000
+  hyp     : Bool := true    -- the hypotheses of C16_complete / C16_complete_resumed held for every scan so far
   tainted : Bool := false   -- an injected FilterBlocks failure fired: in-process retry is outside the model (finding)
 
 def noInvalid : BranchId → List Nat := fun _ => []
@@ -97,7 +99,7 @@ def step (s : St) (line : String) : St × String :=
   | ["bst"] => (s, showBranch s.br)
   | "rinit" :: rest =>
     match (kv rest "scopes").bind natList?, natOf rest "batch" with
-    | some scopes, some batch => ({ s with scopes := scopes, blocks := [], done := 0, rs := none, batch := batch, tainted := false }, "ok")
+    | some scopes, some batch => ({ s with scopes := scopes, blocks := [], done := 0, rs := none, batch := batch, tainted := false, hyp := true }, "ok")
     | _, _ => (s, "bad-op")
   | "rblk" :: rest =>
     match (kv rest "txs").map (fun x => (splitOn1 x ";").mapM parseTx) with
@@ -111,7 +113,10 @@ def step (s : St) (line : String) : St × String :=
       let st' := recover noInvalid w s.batch s.scopes s.blocks (fun _ => true)
       let failat := (natOf rest "failat").getD 0
       if failat != 0 && failat ≤ st.calls then ({ s with tainted := true }, "retried-after-failure")
-      else if persistEq s st st' then ({ s with rs := some st, done := s.blocks.length }, showState s st)
+      else if persistEq s st st' then
+        -- the theorem's hypotheses, evaluated on this chain (the Go oracle evaluates its own version: `hyp=` must agree)
+        let hyp := checkWF s.scopes noInvalid s.blocks && checkLA w s.scopes s.blocks
+        ({ s with rs := some st, done := s.blocks.length, hyp := hyp }, showState s st ++ s!" hyp={if hyp then 1 else 0}")
       else (s, "model-cuts-differ")
     | none => (s, "bad-op")
   | "rrestart" :: rest =>
@@ -123,7 +128,9 @@ def step (s : St) (line : String) : St × String :=
       let st := run (fun _ => false)
       let failat := (natOf rest "failat").getD 0
       if failat != 0 && failat ≤ st.calls - st0.calls then ({ s with tainted := true }, "retried-after-failure")
-      else if persistEq s st (run (fun _ => true)) then ({ s with rs := some st, done := s.blocks.length }, showState s st)
+      else if persistEq s st (run (fun _ => true)) then
+        let hyp := s.hyp && checkWF s.scopes noInvalid s.blocks && checkLAFrom w s.scopes s.done s.blocks
+        ({ s with rs := some st, done := s.blocks.length, hyp := hyp }, showState s st ++ s!" hyp={if hyp then 1 else 0}")
       else (s, "model-cuts-differ")
     | _, _ => (s, "bad-op")
   | ["rstate"] =>
